@@ -94,6 +94,8 @@ class HistoryModel:
         self.ref = RefEval(self.spec)
         self.inst: Dict[str, InstanceState] = {}
         self.execs: Dict[str, dict] = {}
+        self.caches: Dict[str, dict] = {}
+        self.keys_seen: Dict[str, Any] = {}
         self.debug_on = bool(scn.get("debug_on", False))
         self.expect: Dict[tuple, Expect] = {}
         for b in scn.get("prebuild", []):
@@ -252,6 +254,9 @@ class HistoryModel:
                 ex.raises = tuple(op["expect_raise"])
             self.expect[key] = ex
         elif k == "call":
+            if op["inst"] not in self.inst:
+                self.expect[key] = Expect("any")   # e.g. a composition that was (rightly) refused
+                return
             self.expect[key] = self._call_expect(key, op["inst"], [lit(a) for a in op["args"]])
         elif k == "executor":
             st = self.inst[op["inst"]]
@@ -293,6 +298,20 @@ class HistoryModel:
             info["ran"] = True
             selected = {n[1] for n in info["S"] if n[0] == "s"}
             ex = self._call_expect(key, info["inst"], [lit(a) for a in op["args"]], selected=selected)
+            st = self.inst[info["inst"]]
+            if info.get("from_cache") and info["from_cache"] in self.caches and ex.exec_paths is not None:
+                cached = self.caches[info["from_cache"]]["stmts"]
+                for p in list(ex.status):
+                    if len(p) == 1 and p[0][1] in cached and ex.status[p] in ("exec", "op", "deact"):
+                        ex.status[p] = "memo"
+                        ex.exec_paths.discard(p)
+                        ex.args.pop(p, None)
+            if info.get("cache_in") and ex.kind == "value":
+                keys = {p[0][1] for p, sname in ex.status.items() if len(p) == 1 and sname in ("exec", "op", "deact", "memo")}
+                if info.get("cache_deps_of") is not None:
+                    T = self.resolve(st, info["cache_deps_of"])
+                    keys -= {n[1] for n in T if n[0] == "s"}
+                self.caches[info["cache_in"]] = {"stmts": keys}
             if ex.kind == "raises":
                 info["failed"] = True
             info["value"] = ex.value
@@ -433,6 +452,20 @@ class HistoryModel:
             from .values import F
             ex = Expect("value")
             ex.value = F(f["c"], f["ret"], tuple(lit(a) for a in op["args"]), {})
+            self.expect[key] = ex
+        elif k == "read_cache":
+            ex = Expect("cachekeys" if op["file"] in self.caches else "any")
+            if op["file"] in self.caches:
+                ex.selected = set(self.caches[op["file"]]["stmts"])
+                ex.inst = op["inst"]
+            self.expect[key] = ex
+        elif k == "results_keys":
+            ex = Expect("reskeys")
+            ex.inst = op["inst"]
+            self.expect[key] = ex
+        elif k == "snapshot":
+            ex = Expect("snapshot")
+            ex.inst = op["inst"]
             self.expect[key] = ex
         elif k == "cprio":
             ex = Expect("cprio")
